@@ -17,8 +17,9 @@ def suite(tree):
 
 def demo(seed, tree):
     r = sh(["bash", os.path.join(seed, "run.sh"), os.path.join(tree, "libmspack")], cwd=seed, timeout=900)
-    if r.returncode != 0 and "No such file" in (r.stdout + r.stderr) and False:
-        pass
+    if r.returncode != 0 and "No such file" in (r.stdout + r.stderr):
+        # some demonstrations want the repository root rather than its libmspack/ directory
+        r = sh(["bash", os.path.join(seed, "run.sh"), tree], cwd=seed, timeout=900)
     return r.returncode, (r.stdout + r.stderr)[-600:]
 
 def main():
